@@ -342,3 +342,35 @@ def zip_elem_defs(fn_node):
                             return node
                     out[t.id] = _S().visit(_copy.deepcopy(comp.elt))
     return out
+
+
+def primal_dual_arms(fi, flag='primal'):
+    """(primal statements, dual statements) of a do_math body, whatever the spelling of the split:
+        if primal: A else: B           |  if not primal: B else: A
+        if primal: A(...return)  B     |  if not primal: B(...return)  A      (guard clause)
+    None when no top-level test on the flag is found."""
+    def always_leaves(stmts):
+        if not stmts:
+            return False
+        last = stmts[-1]
+        if isinstance(last, (ast.Return, ast.Raise)):
+            return True
+        if isinstance(last, ast.If) and last.orelse:
+            return always_leaves(last.body) and always_leaves(last.orelse)
+        return False
+    body = body_stmts(fi)
+    for i, st in enumerate(body):
+        if not isinstance(st, ast.If):
+            continue
+        t = ntext(st.test)
+        pos = t == flag
+        neg = t in ('not ' + flag, flag + ' is False', flag + ' == False')
+        if not (pos or neg):
+            continue
+        rest = body[i + 1:]
+        a, b = st.body, st.orelse
+        if b:
+            return (a, b) if pos else (b, a)
+        if always_leaves(a) and rest:
+            return (a, rest) if pos else (rest, a)
+    return None
